@@ -39,6 +39,25 @@ def check(ck: Checker) -> None:
         if o.rule == "C17.accessors":
             o.rule = "C18.prefixload"
     _legacy(ck)
+    _viewcopy(ck)
+
+
+def _viewcopy(ck: Checker) -> None:
+    """Each per-remote view gets its own storage mapping: collect() assigns view.storage_map[()] per remote."""
+    fn = ck.prog.func("index.index", "DataIndex.view")
+    asg = [x for x in walk_own(fn.node) if isinstance(x, ast.Assign) and norm(x.targets[0]).endswith(".storage_map")]
+    ok = False
+    why = "view() does not give the new index a storage map"
+    for a in asg:
+        v = a.value
+        t = norm(v)
+        if isinstance(v, ast.Call) and (norm(v.func) in ("copy.deepcopy", "deepcopy")) and v.args and norm(v.args[0]) == "self.storage_map":
+            ok = True
+        elif isinstance(v, ast.Call) and call_name(v) == "StorageMapping" and v.args:
+            ok = True
+        else:
+            why = f"view() shares the mapping ({t}): assigning the root storage of one remote's view overwrites it for every other view, so objects are pushed to the wrong remote"
+    ck.require(ok, "C18.viewcopy", fn, asg[0] if asg else fn.node, "a view owns an independent copy of the storage mapping", why)
 
 
 def _longest(ck: Checker) -> None:
